@@ -637,6 +637,10 @@ from mlmverif.selfcheck import B, OK  # noqa: E402
 
 _F = 'utils/iter_utils.py'
 VARIANTS = [
+    B('revert-get-nowait-lock', _F,
+      '    with self._dequeue_lock:\n      self._states_lock.acquire()\n      try:\n        result = self._queue.get_nowait()',
+      '    if True:\n      self._states_lock.acquire()\n      try:\n        result = self._queue.get_nowait()',
+      'R-C04-1'),
     B('notify-outside-with', _F,
       '    with self._enqueue_lock:\n      self._enqueue_lock.notify()\n    logging.debug(\n        \'chainable: %s\', f\'"{self.name}" dequeued {len(result)} batches\'',
       '    self._enqueue_lock.notify()\n    logging.debug(\n        \'chainable: %s\', f\'"{self.name}" dequeued {len(result)} batches\'',
@@ -646,8 +650,8 @@ VARIANTS = [
       '          if self._enqueue_lock.wait(timeout=self.timeout):\n            break',
       'R-C04-2'),
     B('early-return-skips-release', _F,
-      '      result = self._queue.get_nowait()\n      # Premeptively',
-      '      result = self._queue.get_nowait()\n      self._states_lock.acquire()\n      # Premeptively',
+      '        result = self._queue.get_nowait()\n        # Premeptively',
+      '        result = self._queue.get_nowait()\n        self._states_lock.acquire()\n        # Premeptively',
       'R-C04-3'),
     B('nested-enqueue-lock-in-get', _F,
       '          value = self.get_nowait()\n          _release_and_notify(self._dequeue_lock, notify=self._enqueue_lock)',
@@ -676,8 +680,8 @@ VARIANTS = [
       'self._states_lock, notify=self._dequeue_lock, notify_all=True',
       'self._states_lock, notify=self._dequeue_lock', 'R-C04-5'),
     B('eos-drops-returned', _F,
-      '      if self.enqueue_done:\n        self._set_exhausted()\n        raise self.exception or StopIteration(*self.returned)',
-      '      if self.enqueue_done:\n        self._set_exhausted()\n        raise self.exception or StopIteration()',
+      '        if self.enqueue_done:\n          self._set_exhausted()\n          raise self.exception or StopIteration(*self.returned)',
+      '        if self.enqueue_done:\n          self._set_exhausted()\n          raise self.exception or StopIteration()',
       'R-C04-6'),
     B('stop-enqueue-drops-values', _F,
       '      self._returned.extend(values)\n', '', 'R-C04-6'),
@@ -686,8 +690,8 @@ VARIANTS = [
       '          self.put_nowait(value)\n          _release_and_notify(self._enqueue_lock, notify=self._dequeue_lock)\n          continue',
       'R-C04-7'),
     B('get-nowait-dequeues-twice', _F,
-      '      if self._queue.empty() and self.enqueue_done:\n        self._set_exhausted()\n      return result',
-      '      if self._queue.empty() and self.enqueue_done:\n        self._set_exhausted()\n      return self._queue.get_nowait()',
+      '        if self._queue.empty() and self.enqueue_done:\n          self._set_exhausted()\n        return result',
+      '        if self._queue.empty() and self.enqueue_done:\n          self._set_exhausted()\n        return self._queue.get_nowait()',
       'R-C04-7'),
     B('enqueue-skips-every-other', _F,
       '        self.put(next(iterator))',
